@@ -21,7 +21,7 @@ RULE = ('hierarchies of 1-3 nested branches with 1-5 variables each; every varia
         'variables updated and (a _multi_update, an override, a quantity or an array present); distinct = '
         'distinct case spec')
 PLAN = {'quick': {'n': 30000, 'min_cases': 1500}, 'thorough': {'n': 300000, 'min_cases': 30000}}
-REQUIRED_ORACLES = ['store_value', 'frame', 'update_not_mutated', 'units_normalised',
+REQUIRED_ORACLES = ['second_batch_value', 'store_value', 'frame', 'update_not_mutated', 'units_normalised',
                     'contract.accumulate', 'contract.set', 'contract.merge', 'contract.nonnegative_accumulate',
                     'contract.null', 'contract.dict_value', 'engine_value']
 ANCHORS = ['vivarium.core.registry:update_merge', 'vivarium.core.registry:update_set',
@@ -253,29 +253,36 @@ def gen(r, tier, i):
     for b in range(nb):
         path = ['b%d' % b] + (['in'] if r.random() < 0.4 else []) + (['deep'] if r.random() < 0.2 else [])
         branches.append({'path': path, 'vars': {'v%d' % j: gen_var(r) for j in range(r.randint(1, 4 if tier == 'quick' else 5))}})
-    batch = []
-    for b in branches:
-        for name, var in b['vars'].items():
-            if r.random() < 0.25:
-                continue
-            n = r.choice([1, 1, 1, 2, 3])
-            keys = list(var['default']) if var['kind'] == 'dictv' else []
-            ups = []
-            for _ in range(n):
-                u = gen_update(r, var, keys)
-                if var['upd'] == 'dict_value':
-                    for a in u.get('_add', []):
-                        keys.append(a['key'])
-                    for d in u.get('_delete', []):
-                        keys.remove(d)
-                entry = {'u': u}
-                if var['upd'] != 'dict_value' and var['kind'] in ('int', 'float', 'farr', 'iarr') and r.random() < 0.2:
-                    ov = r.choice(['set', 'accumulate', 'null', 'nonnegative_accumulate', 'user_fn'])
-                    entry['override'] = ov
-                    entry['override_by'] = r.choice(['name', 'function']) if ov == 'user_fn' else 'name'
-                ups.append(entry)
-            batch.append({'path': b['path'] + [name], 'updates': ups})
-    return {'branches': branches, 'batch': batch, 'via': r.choice(['store', 'store', 'engine'])}
+    def gen_batch(keys_of):
+        batch = []
+        for b in branches:
+            for name, var in b['vars'].items():
+                if r.random() < 0.25:
+                    continue
+                n = r.choice([1, 1, 1, 2, 3])
+                keys = keys_of.setdefault((tuple(b['path']), name), list(var['default']) if var['kind'] == 'dictv' else [])
+                ups = []
+                for _ in range(n):
+                    u = gen_update(r, var, keys)
+                    if var['upd'] == 'dict_value':
+                        for a in u.get('_add', []):
+                            keys.append(a['key'])
+                        for d in u.get('_delete', []):
+                            keys.remove(d)
+                    entry = {'u': u}
+                    if var['upd'] != 'dict_value' and var['kind'] in ('int', 'float', 'farr', 'iarr') and r.random() < 0.2:
+                        ov = r.choice(['set', 'accumulate', 'null', 'nonnegative_accumulate', 'user_fn'])
+                        entry['override'] = ov
+                        entry['override_by'] = r.choice(['name', 'function']) if ov == 'user_fn' else 'name'
+                    ups.append(entry)
+                batch.append({'path': b['path'] + [name], 'updates': ups})
+        return batch
+    keys_of = {}
+    batch = gen_batch(keys_of)
+    via = r.choice(['store', 'store', 'engine'])
+    # a second batch applied to the same store afterwards (state must not leak from the first one)
+    batch2 = gen_batch(keys_of) if via == 'store' and r.random() < 0.5 else None
+    return {'branches': branches, 'batch': batch, 'batch2': batch2, 'via': via}
 
 
 # ---------------------------------------------------------------------------
@@ -325,40 +332,45 @@ def run(spec):
     def declared_units(var):
         return getattr(units, {'mass': 'fg', 'time': 'ms', 'qlist': 'fg'}[var['kind']]) if var['kind'] in ('mass', 'time', 'qlist') else None
 
-    # the batch as a nested update + the reference fold
-    update = {}
+    # a batch as a nested update + the reference fold
     touched = set()
     rich = False
-    for item in spec['batch']:
-        p = tuple(item['path'])
-        var = var_of[p]
-        touched.add(p)
-        ups = []
-        cur = model_state[p]
-        du = declared_units(var)
-        for e in item['updates']:
-            u = real(e['u'])
-            name = e.get('override', var['upd'])
-            if 'override' in e:
+
+    def fold(batch):
+        nonlocal rich
+        update = {}
+        for item in batch:
+            p = tuple(item['path'])
+            var = var_of[p]
+            touched.add(p)
+            ups = []
+            cur = model_state[p]
+            du = declared_units(var)
+            for e in item['updates']:
+                u = real(e['u'])
+                name = e.get('override', var['upd'])
+                if 'override' in e:
+                    rich = True
+                    how = name if name != 'user_fn' else ('vmon_user_fn' if e['override_by'] == 'name' else user_fn)
+                    ups.append({'_value': u, '_updater': how})
+                else:
+                    ups.append(u)
+                cur = model(name, cur, u)
+                if du is not None and hasattr(cur, 'to'):
+                    cur = cur.to(du)
+                elif du is not None and isinstance(cur, list):
+                    cur = [c.to(du) for c in cur]
+            model_state[p] = cur
+            if len(ups) > 1:
                 rich = True
-                how = name if name != 'user_fn' else ('vmon_user_fn' if e['override_by'] == 'name' else user_fn)
-                ups.append({'_value': u, '_updater': how})
-            else:
-                ups.append(u)
-            cur = model(name, cur, u)
-            if du is not None and hasattr(cur, 'to'):
-                cur = cur.to(du)
-            elif du is not None and isinstance(cur, list):
-                cur = [c.to(du) for c in cur]
-        model_state[p] = cur
-        if len(ups) > 1:
-            rich = True
-        node = update
-        for k in p[:-1]:
-            node = node.setdefault(k, {})
-        node[p[-1]] = ups[0] if len(ups) == 1 else {'_multi_update': ups}
-        if var['kind'] in ('mass', 'time', 'iarr', 'farr', 'qlist'):
-            rich = True
+            node = update
+            for k in p[:-1]:
+                node = node.setdefault(k, {})
+            node[p[-1]] = ups[0] if len(ups) == 1 else {'_multi_update': ups}
+            if var['kind'] in ('mass', 'time', 'iarr', 'farr', 'qlist'):
+                rich = True
+        return update
+    update = fold(spec['batch'])
     snap = copy.deepcopy(update)
 
     def val(tree, p):
@@ -404,6 +416,18 @@ def run(spec):
                 after['other']['w'] is other_before, ('untouched branch changed', repr(after['other'])))
         V.check('update_not_mutated', eq(update, snap),
                 lambda: ('the update object handed in was modified', repr(snap)[:300], repr(update)[:300]))
+        if spec.get('batch2') and spec['via'] == 'store':
+            update2 = fold(spec['batch2'])
+            snap2 = copy.deepcopy(update2)
+            s.apply_update(update2)
+            after = s.get_value()
+            for p, var in var_of.items():
+                got = val(after, p)
+                V.check('second_batch_value', eq(got, model_state[p]),
+                        lambda: ('after a second batch, variable %s (updater %s, kind %s): got %r expected %r; batches %r then %r' % (
+                            '/'.join(p), var['upd'], var['kind'], got, model_state[p], snap, snap2))[:800])
+            V.check('update_not_mutated', eq(update, snap) and eq(update2, snap2),
+                    lambda: ('an update object was modified by a later batch', repr(snap)[:300], repr(update)[:300]))
     except Exception as ex:
         import traceback
         V.check('store_value' if spec['via'] == 'store' else 'engine_value', False,
